@@ -51,6 +51,43 @@ def g5(run, thorough):
     return len(asserts)
 
 
+def b3(run, tu):
+    """the other consumer of the generated constant getter -- an array length given by name in a type string --
+    treats every status but 0 (positive, agrees) and 1 (<= 0, agrees) as an error: constant propagation from
+    `neg = g->address(&gc)` for each status x value class"""
+    from ..cast import absint
+    from ..cast.absint import Con
+    F = 'parse_sequel'
+    g = cfg_of(tu, F)
+    src = [n for n in g.nodes if n.ast is not None and n.kind == 'stmt' and any(cx.lhs_text(l) == 'neg' and 'g->address' in cx.render(r) for l, r, op, _x in cx.assignments(n.ast))]
+    run.need(len(src) == 1, '%s: `neg = g->address(&gc)` not found' % F)
+    start = [t for t, _l in src[0].succ][0]
+    errs = {n.id for n in g.nodes if n.kind == 'return' and any(cx.callee_name(c) == 'parse_error' for c in cx.calls_in(n.ast))}
+    use = [n for n in g.nodes if n.ast is not None and n.kind == 'stmt' and any(cx.callee_name(c) == 'write_ds' and cx.render(cx.call_args(c)[1]).endswith('length') for c in cx.calls_in(n.ast))]
+    run.need(len(use) == 1, '%s: the store of the array length not found' % F)
+    for neg in (0, 1, 2, 3):
+        for value, vname in ((0, 'zero'), (5, 'small'), (1 << 63, 'above the maximum size')):
+            env = {'neg': Con(neg, 32, True), 'gc.value': Con(value, 64, False)}
+            it = absint.Interp(g, env, {'next_token': lambda a, e: absint.TOP}, const_vars={'neg', 'gc.value'})
+            it.run_from(start, env, errs | {use[0].id})
+            hit_err = [x for x in errs if x in it.in_state]
+            hit_use = use[0].id in it.in_state
+            if hit_err and hit_use:
+                from .. import AnalysisError
+                raise AnalysisError('%s: status %d / value %s not decided by constant propagation' % (F, neg, vname))
+            if neg == 0:
+                want_ok = value <= (1 << 63) - 1
+            elif neg == 1:
+                want_ok = value == 0          # zero is a legal length; a negative value is not
+            else:
+                want_ok = False               # bit 1: the compiler's value disagrees with the cdef
+            got_ok = hit_use and not hit_err
+            ln = it.in_state[use[0].id].get('length') if got_ok else None
+            okv = (not got_ok) or (isinstance(ln, Con) and ln.v == value)
+            run.ob('B3/array-length-constant-with-a-bad-status-is-an-error', F, 'status %d (%s), value %s' % (neg, {0: 'positive, agrees', 1: '<= 0, agrees', 2: 'positive, DISAGREES', 3: '<= 0, DISAGREES'}[neg], vname),
+                   got_ok == want_ok and okv, tu.where(src[0].ast), '%s; expected %s' % ('accepted as length %r' % (ln,) if got_ok else 'rejected', 'accepted' if want_ok else 'rejected'))
+
+
 def rows_of(text, decl):
     m = re.search(re.escape(decl) + r'\[\] = \{(.*?)\n\};', text, re.S)
     if not m:
@@ -322,6 +359,8 @@ def check(run):
     g5(run, run.tier == 'thorough')
     b1(run, tu)
     b2(run, tu)
+    b3(run, tu)
+    run.min_instances('B3', 12)
     run.min_instances('G1/check-flag-iff-fully-declared', 20)
     run.min_instances('G1/field-offset-and-size-taken-from-the-compiler', 30)
     run.min_instances('G2', 12)
